@@ -102,6 +102,18 @@ def scenarios():
             stale = (not rebuilt) and MUTS[m][1]
             out.append(dict(role='output_read_back_tampered', nested=nested, cmp='%s/%s' % (cmp_out, cmp_rd), m=m,
                             prog=prog, mutate=mut(m, 'a'), want=want, stale_ok=stale))
+    # R5 read back across a nested-subbuild boundary (both directions), inside one cached record
+    for cmp_rd in CMPS:
+        for shape in ('inner_reads_outer_output', 'outer_reads_inner_output'):
+            for m in (None, 'touch', 'flip', 'w'):
+                if shape == 'inner_reads_outer_output':
+                    prog = {'level': 0, 'root': [sbn([bfn('a', [rd('i', 'HASH')]), sbn([rd('a', cmp_rd)], 2)], 1)]}
+                else:
+                    prog = {'level': 0, 'root': [sbn([sbn([bfn('a', [rd('i', 'HASH')])], 2), rd('a', cmp_rd)], 1)]}
+                everything = [fname(n, 0) for n in _calls(prog['root'])]
+                changed = detects('HASH', m)      # the producer reads its input with HASH
+                out.append(dict(role='read_back_across_nested_subbuild', nested=True, cmp='HASH/%s' % cmp_rd, m=m, shape=shape,
+                                prog=prog, mutate=mut(m, 'i'), want=everything if changed else [], stale_ok=False))
     return out
 
 
